@@ -392,7 +392,28 @@ _RULE_ADDENDA_R4 = {
     'C14': " Round 4: rarely (1 history in 80) a 'tick' op waits for the wall clock to reach the next second, so that timestamps of later writes differ.",
     'C18': " Round 4: after a genuine (swapped-key) signature verified, a forged one for the same profile key must still be refused; C18Handshake: auth.Encrypt over an in-memory connection against a harness client with 16/24/32-byte shared secrets, the serverId it looks up (recorded by a stub http.DefaultTransport, no network) must be Java's rendering of sha1(serverID+secret+publicKey).",
 }
+_RULE_ADDENDA_R5 = {
+    'C01': ' Round 5: a field may carry the Go name of another, untagged field as its tag (one key, one depth, exactly one tagged: the tagged one owns it).',
+    'C02': ' Round 5: named type SharedPtr (the same *T in two fields and twice in a list: a DAG, not a cycle).',
+    'C03': ' Round 5: list headers with element type End and a negative count.',
+    'C04': ' Round 5: long strings alternating quote characters and backslashes (escaped text longer than 32767 although the string is not).',
+    'C05': ' Round 5: plain readers that return (0, nil) on every 2nd..5th call.',
+    'C06': ' Round 5: every third field is also read through a reader without ReadByte that delivers 1..7 bytes per call and (for fields without NBT inside) now and then (0, nil); value, count and consumption must agree.',
+    'C08': ' Round 5: crafted chat components in the list form with no elements (root, extra, with); valid inputs include the non-empty list form.',
+    'C09': ' Round 5: half of the writer-fault offsets use a sink that also implements io.ByteWriter.',
+    'C11': ' Round 5: op wirefail (WriteTo into a sink failing after k bytes, then a full scan).',
+    'C12': " Round 5: the mutated sibling's wire form is read into a container built from the same save data.",
+    'C13': ' Round 5: 1 section in 10 holds air variants only; statuses include minecraft:-prefixed, doubly prefixed, other namespaces and upper case.',
+    'C14': " Round 5: the rare clock op is either 'tick' or 'slowts' (the next write to the timestamp table is delayed until the next second).",
+    'C16': ' Round 5: C16Login - the server side of the login (in-memory connection) against a client that picks its request id (-1, 0, boundaries): accepted iff the passwords are equal, refusal is (id -1, type 2).',
+    'C17': " Round 5: the NBT form's click/hover event compounds must carry their mandatory keys; bare strings, lists and compounds are also decoded from the spelling of a foreign JSON encoder (solidus and non-ASCII escaped, surrogate pairs).",
+    'C18': " Round 5: each signature case also verifies after a WriteTo/ReadFrom round trip of the PublicKey; C18ClientHandshake: bot.Client joins a harness server that sends a generated server id, the serverId of its join request must be Java's rendering of sha1(serverID+secret+publicKey).",
+    'C19': ' Round 5: the bot is configured with a foreign account UUID in a third of the cases; the agreed UUID must be the offline UUID.',
+    'C20': ' Round 5: C20Bounded - 1500 (thorough 6000) rounds per case of 2..8 producers pushing once into a ChannelQueue with 1-2 free slots and no consumer: all return within 10 s and exactly the free slots are taken.',
+}
 for _pid, _txt in _RULE_ADDENDA_R3.items():
     PROPS[_pid]["rule"] = PROPS[_pid].get("rule", "") + _txt
 for _pid, _txt in _RULE_ADDENDA_R4.items():
+    PROPS[_pid]["rule"] = PROPS[_pid].get("rule", "") + _txt
+for _pid, _txt in _RULE_ADDENDA_R5.items():
     PROPS[_pid]["rule"] = PROPS[_pid].get("rule", "") + _txt
